@@ -479,6 +479,18 @@ func (fsm *fsm) isDominant(open *bgp.BGPOpen) bool {
 	return false
 }
 
+// closeCollided closes the connection that lost the collision resolution.
+// RFC 4271 6.8: closing it includes sending a NOTIFICATION with the Error
+// Code Cease (RFC 4486: subcode Connection Collision Resolution).
+func (fsm *fsm) closeCollided(conn net.Conn) {
+	m := bgp.NewBGPNotificationMessage(bgp.BGP_ERROR_CEASE, bgp.BGP_ERROR_SUB_CONNECTION_COLLISION_RESOLUTION, nil)
+	if b, err := m.Serialize(); err == nil {
+		conn.SetWriteDeadline(time.Now().Add(time.Second))
+		_, _ = conn.Write(b)
+	}
+	conn.Close()
+}
+
 func (fsm *fsm) bgpMessageResetStats() {
 	atomic.StoreUint64(&fsm.counterStats.Received.Total, 0)
 	atomic.StoreUint64(&fsm.counterStats.Received.Update, 0)
@@ -1546,7 +1558,7 @@ func (h *fsmHandler) opensent(ctx context.Context) (bgp.FSMState, *fsmStateReaso
 				if isDominant {
 					// close the incoming connection
 					fsm.logger.Debug("collision detected: dominant on active side, close the incoming connection")
-					fsm.conn.Close()
+					fsm.closeCollided(fsm.conn)
 					fsm.conn = outConn.conn
 					fsm.lock.Lock()
 					fsm.recvOpen = outConn.open
@@ -1554,7 +1566,7 @@ func (h *fsmHandler) opensent(ctx context.Context) (bgp.FSMState, *fsmStateReaso
 				} else {
 					// close the outgoing connection
 					fsm.logger.Debug("collision detected: dominant on passive side, close the outgoing connection")
-					outConn.conn.Close()
+					fsm.closeCollided(outConn.conn)
 				}
 			}
 
@@ -1591,11 +1603,11 @@ func (h *fsmHandler) opensent(ctx context.Context) (bgp.FSMState, *fsmStateReaso
 					if isDominant {
 						// close the incoming connection
 						fsm.logger.Debug("collision detected: dominant on active side, close the incoming connection")
-						incomingConn.Close()
+						fsm.closeCollided(incomingConn)
 					} else {
 						// close the outgoing connection
 						fsm.logger.Debug("collision detected: dominant on passive side, close the outgoing connection")
-						result.conn.Close()
+						fsm.closeCollided(result.conn)
 						fsm.conn = incomingConn
 						fsm.lock.Lock()
 						fsm.recvOpen = e.MsgData.(*bgp.BGPMessage)
